@@ -90,6 +90,7 @@ impl<'a> BufRead for ChunkedBufRead<'a> {
 
 /// Async twin. `pend[i]` = number of `Poll::Pending` results returned (after waking) before the
 /// i-th successful/failing `poll_fill_buf` completion.
+#[derive(Clone)]
 pub struct ChunkedAsync<'a> {
     pub data: &'a [u8],
     pub cuts: Vec<usize>,
